@@ -15,9 +15,19 @@ def is_lod(cx, result):
 
 
 def result_items(cx, result):
-    cx.prove("result-is-ListOfDicts", z3.BoolVal(is_lod(cx, result)))
+    cx.prove("result-is-ListOfDicts", is_lod(cx, result))
     if not is_lod(cx, result):
         raise M.Unsupported("result is not a ListOfDicts")
+    me = cx.inputs.get("self")
+    qn = cx.contract.qualname.split(".")[-1]
+    if isinstance(me, Instance) and qn not in ("_new", "deepcopy", "__deepcopy__") and getattr(me, "href", None) is None:
+        # C17: derivation link and obsolescence bookkeeping
+        cx.prove("result-predecessor-is-receiver", result.attrs.get("_predecessor") is me)
+        cx.prove("result-not-obsolete", result.attrs.get("_obsolete") is False)
+        if qn in EDITING:
+            cx.prove("receiver-marked-obsolete", me.attrs.get("_obsolete") is True)
+        else:
+            cx.prove("receiver-obsolete-flag-untouched", me.attrs.get("_obsolete") is cx.initial_obsolete)
     return M.unstructure(result.base)
 
 
@@ -240,6 +250,11 @@ class _Concat(Contract):
         cx.prove("prefix=self", z3.Implies(in_range(j, s.len), items.at(j) == s.at(j)))
         cx.prove("suffix=other", z3.Implies(in_range(j, o.len), items.at(zint(s.len) + j) == o.at(j)))
         cx.prove("frame:items-unchanged", cx.ctx.heap["D"] == cx.old["heap"]["D"])
+        if cx.prop == "C17":
+            # the result hands on the item objects of BOTH operands, so both must be among its ancestors
+            # for a later in-place edit to mark them obsolete; the code records one predecessor only
+            preds = [result.attrs.get("_predecessor")] + list(result.attrs.get("_co_predecessors", ()) or ())
+            cx.prove("right-operand-is-an-ancestor-of-the-result", any(p is cx.inputs["other"] for p in preds))
 
 
 @register
@@ -664,3 +679,310 @@ class FillMissing1(_InPlace):
         v = cx.inputs["v"]
         cx.prove("missing-filled-present-kept", z3.Implies(in_range(j, s.len), D[s.at(j)][kvs[0]] == z3.If(
             D0[s.at(j)][kvs[0]] == ABSENT, v, D0[s.at(j)][kvs[0]])))
+
+
+# =========================================================================================
+# C17: shared-dict discipline - isolation and obsolescence
+# =========================================================================================
+import ast as _ast
+from pyvc.extract import RepoModule
+
+EDITING = ["modify", "modify_if", "rename", "select", "unselect", "fill_missing_keys", "inner_join", "left_join"]
+NON_EDITING = ["filter", "filter_out", "sort", "unique", "head", "tail", "copy", "reverse", "sample", "semi_join",
+               "anti_join", "append", "extend", "insert", "__add__", "__mul__", "__getitem__", "drop_na", "clear"]
+
+for _c in (FilterCallable, FilterOutCallable, FilterKV1, FilterOutKV1, Head, Tail, Slice, Reverse, SortAsc, SortDesc,
+           SortAscDesc, Unique1, Append, Add, Extend, Insert, Modify1, Modify2, ModifyIf1, Unselect1, FillMissing1,
+           Select1):
+    _c.also = ("C17",)
+
+
+def heap_lod(cx, name):
+    """A ListOfDicts object living in the object heap: fields _obsolete/_obsolete_warned/_predecessor are
+    cells of the heap arrays obs/warned/pred, so that arbitrary predecessor chains can be talked about."""
+    obj = cx.lod(name)
+    for a in ("_obsolete", "_obsolete_warned", "_predecessor"):
+        obj.attrs.pop(a, None)
+    obj.href = cx.ctx.fresh(name + "_ref", V)
+    cx.assume(obj.href != NONE)
+    for hn, srt in (("obs", BOOL), ("warned", BOOL), ("pred", V)):
+        cx.it.heap_field(hn, srt)
+    return obj
+
+
+def chain_axioms(cx, x):
+    """anc(x, y): y is x or one of its (transitive) predecessors.  Unfolded once at x (by hand), plus the
+    well-foundedness measure: depth decreases along _predecessor (acyclic chains - an invariant, because
+    _predecessor is only ever assigned to a freshly constructed list, see structural obligations)."""
+    ctx = cx.ctx
+    anc = z3.Function("anc", V, V, BOOL)
+    depth = z3.Function("depth", V, INT)
+    pred = ctx.heap["pred"]
+    y = z3.Const("y!anc", V)
+    ctx.assumptions.append(z3.ForAll([y], anc(x, y) == z3.Or(y == x, z3.And(pred[x] != NONE, anc(pred[x], y))),
+                                     patterns=[anc(x, y)]))
+    z = z3.Const("z!d", V)
+    ctx.assumptions.append(z3.ForAll([z], z3.And(depth(z) >= 0, z3.Implies(pred[z] != NONE, depth(pred[z]) < depth(z))),
+                                     patterns=[depth(z)]))
+    return anc, depth
+
+
+def mark_obsolete_callee(cx_holder):
+    def callee(it, args, kwargs):
+        """Contract of ListOfDicts._mark_obsolete used at the recursive call site."""
+        ctx = it.ctx
+        recv = args[0]
+        p = recv.href
+        anc, depth, me = cx_holder["anc"], cx_holder["depth"], cx_holder["self"]
+        ctx.prove("rec:measure-decreases", z3.And(depth(p) < depth(me), depth(p) >= 0), kind="pre")
+        ctx.prove("rec:receiver-not-None", p != NONE, kind="pre")
+        obs = ctx.heap["obs"]
+        obs1 = ctx.fresh("obs_rec", obs.sort())
+        y = z3.Const("y!rec", V)
+        ctx.assumptions.append(z3.ForAll([y], z3.And(z3.Implies(anc(p, y), obs1[y]),
+                                                     z3.Implies(z3.Not(anc(p, y)), obs1[y] == obs[y])), patterns=[obs1[y]]))
+        ctx.heap["obs"] = obs1
+        return None
+    return callee
+
+
+@register
+class MarkObsolete(Contract):
+    """_mark_obsolete marks the receiver and every ancestor obsolete and nothing else (proved against
+    its own contract at the recursive call; measure = depth of the predecessor chain)."""
+    file, qualname, prop = F, "ListOfDicts._mark_obsolete", "C17"
+    holder = {}
+    callees = {"ListOfDicts._mark_obsolete": mark_obsolete_callee(holder)}
+
+    def setup(self, cx):
+        self_ = heap_lod(cx, "self")
+        anc, depth = chain_axioms(cx, self_.href)
+        self.holder.update(anc=anc, depth=depth, self=self_.href)
+        cx.old_fields = {h: cx.ctx.heap[h] for h in ("obs", "warned", "pred")}
+        return {"self": self_, "args": [], "anc": anc}
+
+    def ensures(self, cx, result):
+        ctx = cx.ctx
+        anc, me = cx.inputs["anc"], cx.inputs["self"].href
+        obs0, obs = cx.old_fields["obs"], ctx.heap["obs"]
+        y = ctx.fresh("y", V)
+        cx.prove("receiver-and-all-ancestors-obsolete", z3.Implies(anc(me, y), obs[y]))
+        cx.prove("frame:non-ancestors-keep-their-flag", z3.Implies(z3.Not(anc(me, y)), obs[y] == obs0[y]))
+        cx.prove("frame:pred-unchanged", ctx.heap["pred"] == cx.old_fields["pred"])
+        cx.prove("frame:warned-unchanged", ctx.heap["warned"] == cx.old_fields["warned"])
+        cx.prove("frame:items-unchanged", M.heap_D(ctx) == cx.old["heap"]["D"])
+
+
+@register
+class ObsoletesWrapper(Contract):
+    """deco.obsoletes: runs the wrapped method, then marks receiver + ancestors obsolete, returns the
+    method's value untouched."""
+    file, qualname, prop = "dataiter/deco.py", "obsoletes", "C17"
+    holder = {}
+    callees = {"ListOfDicts._mark_obsolete": mark_obsolete_callee(holder)}
+
+    def setup(self, cx):
+        from pyvc.interp import ModelFn
+        self_ = heap_lod(cx, "self")
+        anc, depth = chain_axioms(cx, self_.href)
+        # at the (non-recursive) call site the callee contract needs no measure: give it a larger one
+        top = cx.ctx.fresh("caller", V)
+        self.holder.update(anc=anc, depth=depth, self=top)
+        cx.assume(depth(self_.href) < depth(top))
+        value = cx.val("method_result")
+        calls = []
+
+        def method(it, args, kwargs):
+            calls.append(args)
+            return value
+        cx.value, cx.calls = value, calls
+        cx.old_fields = {h: cx.ctx.heap[h] for h in ("obs", "warned", "pred")}
+        arg = cx.val("arg")
+        cx.arg = arg
+        return {"self": None, "args": [ModelFn("wrapped method", method)], "anc": anc, "me": self_}
+
+    def ensures(self, cx, result):
+        ctx = cx.ctx
+        me = cx.inputs["me"]
+        anc = cx.inputs["anc"]
+        # `result` is the wrapper; call it like a method call on the receiver
+        out = cx.it.call(result, [me, cx.arg], {"kw": cx.arg})
+        cx.prove("calls-method-once-with-receiver-and-arguments",
+                 len(cx.calls) == 1 and cx.calls[0][0] is me and cx.calls[0][1] is cx.arg)
+        cx.prove("returns-method-result", out == cx.value if M.is_v(out) else False)
+        y = ctx.fresh("y", V)
+        cx.prove("receiver-and-all-ancestors-obsolete", z3.Implies(anc(me.href, y), ctx.heap["obs"][y]))
+        cx.prove("frame:non-ancestors-keep-their-flag",
+                 z3.Implies(z3.Not(anc(me.href, y)), ctx.heap["obs"][y] == cx.old_fields["obs"][y]))
+
+
+@register
+class NewLinksPredecessor(Contract):
+    """_new(dicts): a fresh list with the given items, not obsolete, whose predecessor is the receiver."""
+    file, qualname, prop = F, "ListOfDicts._new", "C17"
+
+    def setup(self, cx):
+        self_ = cx.lod("self", group_keys=("g",))
+        items = cx.item_seq("dicts")
+        return {"self": self_, "args": [items], "items": items}
+
+    def ensures(self, cx, result):
+        s = cx.inputs["items"]
+        me = cx.inputs["self"]
+        items = result_items(cx, result)
+        cx.prove("is-a-new-object", result is not me)
+        cx.prove("predecessor-is-receiver", result.attrs.get("_predecessor") is me)
+        cx.prove("not-obsolete", result.attrs.get("_obsolete") is False and result.attrs.get("_obsolete_warned") is False)
+        cx.prove("group-keys-inherited", result.attrs.get("_group_keys") == ("g",))
+        cx.prove("same-item-objects", seq_eq(cx.ctx, items, s))
+        cx.prove("receiver-fields-untouched", me.attrs.get("_predecessor") is None and len(me.attrs) == 4)
+
+
+@register
+class PredecessorOnlySetOnFreshObjects(Contract):
+    """Structural: _predecessor is assigned only in __init__ (None, on the object under construction) and in
+    _new (on the list it has just constructed) - hence predecessor chains are acyclic and never change."""
+    file, qualname, prop, variant = F, "ListOfDicts._new", "C17", "structural: assignments to _predecessor"
+
+    def setup(self, cx):
+        return {"self": cx.lod("self"), "args": [cx.item_seq("dicts")]}
+
+    def ensures(self, cx, result):
+        mod = RepoModule.load(F, cx.it.repo)
+        cls = mod.classes["ListOfDicts"].node
+        sites = []
+        for fn in cls.body:
+            if not isinstance(fn, _ast.FunctionDef):
+                continue
+            for n in _ast.walk(fn):
+                if isinstance(n, _ast.Attribute) and n.attr == "_predecessor" and isinstance(n.ctx, (_ast.Store, _ast.Del)):
+                    sites.append((fn.name, _ast.unparse(n.value)))
+                if isinstance(n, _ast.Call) and isinstance(n.func, _ast.Name) and n.func.id in ("setattr", "delattr"):
+                    sites.append((fn.name, "setattr/delattr call"))
+        cx.prove("only-__init__-and-_new-assign-_predecessor", sorted(sites) == [("__init__", "self"), ("_new", "new")])
+        newfn = [f for f in cls.body if isinstance(f, _ast.FunctionDef) and f.name == "_new"][0]
+        first = newfn.body[0]
+        ok = (isinstance(first, _ast.Assign) and _ast.unparse(first.targets[0]) == "new"
+              and isinstance(first.value, _ast.Call) and _ast.unparse(first.value.func) == "self.__class__")
+        cx.prove("_new-assigns-it-on-the-object-it-just-constructed", ok)
+
+
+@register
+class DecoratorDiscipline(Contract):
+    """Structural: exactly the editing methods carry @deco.obsoletes (outermost), the non-editing ones do not."""
+    file, qualname, prop, variant = F, "ListOfDicts.modify", "C17", "structural: which methods are @obsoletes"
+    loops = {("ListOfDicts.modify", 0): LoopSpec(frame_inv(("k1",)))}
+
+    def setup(self, cx):
+        return {"self": cx.lod("self"), "kwargs": {"k1": cx.callback("f1")}}
+
+    def ensures(self, cx, result):
+        mod = RepoModule.load(F, cx.it.repo)
+        cls = mod.classes["ListOfDicts"]
+        for name in EDITING:
+            decs = [_ast.unparse(d) for d in cls.methods[name][0].decorator_list]
+            cx.prove(f"editing-method-marks-obsolete:{name}", decs[:1] == ["deco.obsoletes"])
+        for name in NON_EDITING:
+            if name in cls.methods:
+                decs = [_ast.unparse(d) for d in cls.methods[name][0].decorator_list]
+                cx.prove(f"non-editing-method-does-not:{name}", "deco.obsoletes" not in decs)
+
+
+class _GetAttribute(Contract):
+    file, qualname, prop = F, "ListOfDicts.__getattribute__", "C17"
+    attr = "filter"
+
+    def setup(self, cx):
+        self_ = cx.lod("self")
+        cx.obs0, cx.warned0 = self_.attrs["_obsolete"], self_.attrs["_obsolete_warned"]
+        return {"self": self_, "args": [self.attr]}
+
+    def expect_warn(self, cx):
+        raise NotImplementedError
+
+    def ensures(self, cx, result):
+        me = cx.inputs["self"]
+        plain = cx.it.instance_getattr(me, self.attr)
+        same = (result is plain) or (type(result) is type(plain) and getattr(result, "func", 1) is getattr(plain, "func", 2)) \
+            or (M.is_v(result) and M.is_v(plain) and result.eq(plain)) or result == plain
+        cx.prove("returns-the-attribute-unchanged", bool(same))
+        warn = self.expect_warn(cx)
+        n = len(cx.ctx.printed)
+        w = cx.ctx.fresh("w", BOOL)
+        # printed exactly once iff warn; flag set iff warn (or already set)
+        cx.prove("warning-printed-iff-obsolete-and-not-yet-warned",
+                 z3.And(z3.Implies(warn, z3.BoolVal(n == 1)), z3.Implies(z3.Not(warn), z3.BoolVal(n == 0))))
+        after = me.attrs["_obsolete_warned"]
+        after = after if M.is_z3(after) else z3.BoolVal(bool(after))
+        cx.prove("warned-flag", after == z3.Or(cx.warned0, warn))
+        cx.prove("obsolete-flag-unchanged", (me.attrs["_obsolete"] is cx.obs0))
+        # second use right after: never warns again
+        cx.ctx.printed.clear()
+        cx.it.call(cx.it.bind(cx.it.class_attr(me.cls, "__getattribute__")[1], me), [self.attr], {})
+        cx.prove("second-use-is-silent-after-a-warning", z3.Implies(warn, z3.BoolVal(len(cx.ctx.printed) == 0)))
+
+
+@register
+class GetAttributeMethod(_GetAttribute):
+    variant, attr = "a public method", "filter"
+
+    def expect_warn(self, cx):
+        return z3.And(cx.obs0, z3.Not(cx.warned0))
+
+
+@register
+class GetAttributeData(_GetAttribute):
+    variant, attr = "a data attribute", "_group_keys"
+
+    def expect_warn(self, cx):
+        return z3.BoolVal(False)
+
+
+@register
+class GetAttributeObsoleteMachinery(_GetAttribute):
+    variant, attr = "the obsolescence machinery itself", "_mark_obsolete"
+
+    def expect_warn(self, cx):
+        return z3.BoolVal(False)
+
+
+@register
+class DeepCopy(Contract):
+    """deepcopy: new list, new item dicts with equal contents, no predecessor link - so no later edit through
+    the copy can reach an original dict (with the editors' frame conditions: they only write their own items)."""
+    file, qualname, prop = F, "ListOfDicts.deepcopy", "C17"
+
+    def setup(self, cx):
+        return {"self": cx.lod("self", group_keys=("g",)), "args": []}
+
+    def ensures(self, cx, result):
+        ctx = cx.ctx
+        s = cx.inputs["self"].base
+        D0, A0, D = cx.old["heap"]["D"], cx.old["heap"]["alloc"], ctx.heap["D"]
+        items = result_items(cx, result)
+        j, j2 = ctx.fresh("j", INT), ctx.fresh("j2", INT)
+        r = ctx.fresh("r", V)
+        cx.prove("len", zint(items.len) == zint(s.len))
+        cx.prove("equal-contents", z3.Implies(in_range(j, s.len), D[items.at(j)] == D0[s.at(j)]))
+        cx.prove("fresh-item-objects", z3.Implies(in_range(j, s.len), z3.Not(A0[items.at(j)])))
+        cx.prove("shares-no-dict-with-original", z3.Implies(z3.And(in_range(j, s.len), in_range(j2, s.len)),
+                                                           items.at(j) != s.at(j2)))
+        cx.prove("no-predecessor-link", result.attrs.get("_predecessor") is None)
+        cx.prove("not-obsolete", result.attrs.get("_obsolete") is False)
+        cx.prove("frame:existing-dicts-unchanged", z3.Implies(A0[r], D[r] == D0[r]))
+        cx.prove("group-keys-kept", result.attrs.get("_group_keys") == ("g",))
+
+
+@register
+class Copy(Contract):
+    file, qualname, prop = F, "ListOfDicts.copy", "C17"
+
+    def setup(self, cx):
+        return {"self": cx.lod("self"), "args": []}
+
+    def ensures(self, cx, result):
+        s = cx.inputs["self"].base
+        items = result_items(cx, result)
+        cx.prove("same-item-objects", seq_eq(cx.ctx, items, s))
+        cx.prove("predecessor-is-receiver", result.attrs.get("_predecessor") is cx.inputs["self"])
+        cx.prove("frame:items-unchanged", cx.ctx.heap["D"] == cx.old["heap"]["D"])
